@@ -73,7 +73,12 @@ static DeflCase gen_defl(Tape &t) {
 }
 
 // |Z^T (b - A x')| after x' = x0 + Z E^-1 Z^T (b - A x0) evaluated in double: first-order bound, see the comments
-static LV project_bound(const DeflCase &d, const LV &b, const LV &x0, const LV &x1) {
+// xb (optional): componentwise bound for x1 itself against the dense x0 + Z E^-1 Z^T (b - A x0).  The computed correction is
+// Z d_c with d_c = fl(E_c^-1 fl(Z^T fl(b - A x0))), so its error is |Z| dd with
+//   dd = |E^-1| (|Z|^T dr + dg) + |E^-1| dE |E^-1| |g| + (k+2) u |E^-1| |g|,   dr = (n+2) u (|b| + |A||x0|),
+// i.e. of order u (|x0| + |Z||E^-1||Z|^T (|b| + |A||x0|)) — NOT u |result|: when Z^T (b - A x0) vanishes (or x0 + Z d cancels)
+// the rounding of the residual still passes through E^-1.  Plus the rounding of the linear combination itself.
+static LV project_bound(const DeflCase &d, const LV &b, const LV &x0, const LV &x1, LV *xb = nullptr) {
     const ptrdiff_t n = d.n; const int k = d.k;
     LD Z(n, k); for (int j = 0; j < k; ++j) for (ptrdiff_t i = 0; i < n; ++i) Z(i, j) = d.Z[j * n + i];
     LD Zt = transposed(Z), aZ = absm(Z), aZt = absm(Zt), aA = absm(d.dA);
@@ -103,13 +108,20 @@ static LV project_bound(const DeflCase &d, const LV &b, const LV &x0, const LV &
     LV dd = addv(addv(matvec(aEi, dg), matvec(aEi, matvec(dE, matvec(aEi, absv(gq))))), scalev((k + 2) * U, matvec(aEi, absv(gq))));
     LV dx = scalev((k + 3) * U, addv(absv(x0), addv(absv(x1), matvec(aZ, matvec(aEi, absv(gq))))));
     LV bd = addv(matvec(aE, dd), matvec(aZt, matvec(aA, dx)));
+    if (xb) {
+        LV e = addv(matvec(aZ, dd), dx);
+        // the long-double reference itself (explicit inverse of E): normwise floor
+        ld eref = 16 * static_cast<ld>(k) * std::ldexp(1.0L, -64) * norminf(Ei) * norminf(E) * norminf(matvec(aZ, matvec(aEi, absv(gq))));
+        for (auto &v : e) v = 4 * (v + eref);
+        *xb = e;
+    }
     // evaluation of the tested quantity itself is done in long double
     return scalev(4, bd);
 }
 
 static void prop_deflated(Tape &t, Ctx &c);
-static double g_worst = 0; // calibration aid: worst |z^T r| / bound seen by this process (VF_C18_CALIB=1 prints it)
-struct CalibPrinter { ~CalibPrinter() { if (getenv("VF_C18_CALIB")) fprintf(stderr, "worst projection defect/bound %.4g\n", g_worst); } } g_calib_printer;
+static double g_worst = 0, g_worst_x = 0; // calibration aid: worst |z^T r| / bound seen by this process (VF_C18_CALIB=1 prints it)
+struct CalibPrinter { ~CalibPrinter() { if (getenv("VF_C18_CALIB")) fprintf(stderr, "worst projection defect/bound %.4g, x/bound %.4g\n", g_worst, g_worst_x); } } g_calib_printer;
 
 static std::vector<Prop> props() {
     return {
@@ -129,7 +141,8 @@ static void deflated_checks(Tape &t, Ctx &c, const DeflCase &d, const Obj &S, co
         amgcl::backend::numa_vector<double> B(b), X(x0);
         S.project(B, X);
         std::vector<double> x1(X.data(), X.data() + n);
-        LV q = ztr(tolv(b), tolv(x1)), bd = project_bound(d, tolv(b), tolv(x0), tolv(x1));
+        LV xbnd;
+        LV q = ztr(tolv(b), tolv(x1)), bd = project_bound(d, tolv(b), tolv(x0), tolv(x1), &xbnd);
         for (int j = 0; j < k; ++j) if (bd[j] > 0) g_worst = std::max(g_worst, static_cast<double>(std::abs(q[j]) / bd[j]));
         for (int j = 0; j < k; ++j)
             VF_REQUIRE(getenv("VF_C18_CALIB") || std::abs(q[j]) <= bd[j], "project: z_" << j << "^T (b - A x) = " << static_cast<double>(q[j]) << " after projection (bound " << static_cast<double>(bd[j]) << "), before: " << static_cast<double>(ztr(tolv(b), tolv(x0))[j]));
@@ -138,11 +151,10 @@ static void deflated_checks(Tape &t, Ctx &c, const DeflCase &d, const Obj &S, co
         bool ok; LD Ei = inverse(matmul(transposed(Z), matmul(d.dA, Z)), ok);
         LV dref = matvec(Ei, ztr(tolv(b), tolv(x0)));
         LV xr = addv(tolv(x0), matvec(Z, dref));
-        LV scale = addv(absv(tolv(x0)), matvec(absm(Z), absv(dref)));
-        ld kap = norminf(Ei) * norminf(matmul(transposed(absm(Z)), matmul(absm(d.dA), absm(Z))));
         for (ptrdiff_t i = 0; i < n; ++i) {
-            ld bnd = 16 * static_cast<ld>(n + 2) * U * (1 + kap) * (scale[i] + norminf(scale));
-            VF_REQUIRE(std::abs(static_cast<ld>(x1[i]) - xr[i]) <= bnd, "project: x[" << i << "] = " << x1[i] << ", x0 + Z E^-1 Z^T (b - A x0) = " << static_cast<double>(xr[i]) << " (bound " << static_cast<double>(bnd) << ")");
+            ld err = std::abs(static_cast<ld>(x1[i]) - xr[i]);
+            if (xbnd[i] > 0) g_worst_x = std::max(g_worst_x, static_cast<double>(err / xbnd[i]));
+            VF_REQUIRE(getenv("VF_C18_CALIB") || err <= xbnd[i], "project: x[" << i << "] = " << x1[i] << ", x0 + Z E^-1 Z^T (b - A x0) = " << static_cast<double>(xr[i]) << " (|diff| " << static_cast<double>(err) << " > bound " << static_cast<double>(xbnd[i]) << ")");
         }
     }
     // ---- apply = precondition, then project
@@ -175,7 +187,10 @@ static void deflated_checks(Tape &t, Ctx &c, const DeflCase &d, const Obj &S, co
             if (variant == 0) std::tie(iters, resid) = S(F, X);
             else std::tie(iters, resid) = S(std::tie(d.n, d.A.ptr, d.A.col, d.A.val), F, X);
         } catch (const std::runtime_error &e) { // documented breakdown exits of the BiCG-type methods (non-symmetric systems)
-            VF_REQUIRE(d.nonsym && (d.solver == "bicgstab" || d.solver == "bicgstabl" || d.solver == "idrs" || d.solver == "cg"), d.solver << " threw on a " << (d.nonsym ? "non-symmetric" : "SPD") << " system: " << e.what());
+            // An exact breakdown (zero rho / sigma / omega, IDR(s) zero M[k,k]) reported by an exception is a clean, documented outcome of
+            // the BiCG-type methods on any system (C13/C17 accept it as well); C18 claims nothing about a solve that did not return.
+            // cg and the gmres family have no such exit: an exception from them is a failure.
+            VF_REQUIRE(d.solver == "bicgstab" || d.solver == "bicgstabl" || d.solver == "idrs", d.solver << " threw on a " << (d.nonsym ? "non-symmetric" : "SPD") << " system: " << e.what());
             c.label(std::string("solve:threw:") + e.what());
             continue;
         }
